@@ -98,6 +98,8 @@ def expand_splits(units):
     """units carrying 'split': N are expanded breadth-first into >= N decision prefixes"""
     need = [u for u in units if u.get('split')]
     if not need:
+        for u in units:
+            u.pop('split', None)
         return units
     from symtex import session, explore as X, runtime as R
     S = session.Session(use_summary=False)
@@ -132,12 +134,10 @@ def run_check(modname, tier, seed, workers=None):
     units = expand_splits(units)
     # reachability twins: the first unit of every harness function, with every assertion forced to fail
     twins = []
-    seen = set()
+    last_of = {}
     for u in units:
-        key = (u['hfile'], u['fname'])
-        if key in seen:
-            continue
-        seen.add(key)
+        last_of[(u['hfile'], u['fname'])] = u      # the last planned unit of a function is its largest instance
+    for u in last_of.values():
         t = dict(u)
         t['twin'] = True
         t['max_paths'] = 40
